@@ -21,6 +21,8 @@ SUBJECT = {
     "ge": ("    for x in [x0, x1]:\n        assert x >= snapshot({a})", "c0"),
     "in": ("    assert x0 in snapshot({a})", "[c0, c1]"),
     "gi": ("    s = snapshot({a})\n    assert s[1] == x0", "{{1: c0}}"),
+    "nested": ("    assert [x0, x1] == snapshot({a})", "[snapshot(c0), snapshot(c1)]"),
+    "nested3": ("    assert [x0, x1, x0] == snapshot({a})", "[snapshot(c0), c1, snapshot(c0)]"),
 }
 
 
@@ -33,6 +35,8 @@ def subject_wrong(op, v):
         return not (v["x0"] >= v["c0"] and v["x1"] >= v["c0"])
     if op == "in":
         return not (v["x0"] == v["c0"] or v["x0"] == v["c1"])
+    if op in ("nested", "nested3"):
+        return not (v["x0"] == v["c0"] and v["x1"] == v["c1"])
     return not (v["c0"] == v["x0"])
 
 
@@ -127,6 +131,7 @@ def real_exit_status():
     return ok
 
 
+SHARED_OPS = [op for op in SUBJECT if not op.startswith("nested")]
 GLB = {"green_case": green_case, "shared_case": shared_case, "__name__": "harness.c07"}
 VALS = ["c0", "c1", "x0", "x1", "y0", "d0", "y1", "d1"]
 VD = "{" + ", ".join(f"{n!r}: {n}" for n in VALS) + "}"
@@ -137,7 +142,7 @@ def conditions(tier):
     conds = []
     fb = [(f"f{i}", "bool") for i in range(6)]
     for op in SUBJECT:
-        for pos in (0, 1, 2):
+        for pos in (0, 1, 2) if not op.startswith('nested') else (1,):
             for empty in (False, True):
                 for fix in (False, True):
                     for create in (False, True):
@@ -149,14 +154,14 @@ def conditions(tier):
                         fn = mkfn(name, fb + [(n, "int") for n in VALS], body, GLB, pre=pre)
                         conds.append(Cond(name, fn, timeout=900, group="green",
                                           bounds=f"3 snapshots in one test; subject `{op}` at position {pos}, {'empty' if empty else 'with argument'}; all 8 values symbolic; fix={fix}, create={create}, every subset of trim/update/review{'/report' if not q else ''}"))
-    for op in SUBJECT:
+    for op in SHARED_OPS:
         for create in (False, True):
             body = f"return shared_case({op!r}, [f0, f1, f2, f3, f4, f5], {{'c0': c0, 'c1': c1, 'x0': x0, 'x1': x1}}, order, True)"
             name = f"shared_empty_{op}_{'create' if create else 'nocreate'}"
             fn = mkfn(name, fb + [("c0", "int"), ("c1", "int"), ("x0", "int"), ("x1", "int"), ("order", "bool")], body, GLB, pre=[f"f0 == {create} and not f5"])
             conds.append(Cond(name, fn, timeout=900, group="shared",
                               bounds=f"one *empty* `{op}` snapshot call site inside a helper executed by two test items (equal or different symbolic values); create={create}, every subset of fix/trim/update/review"))
-    for op in SUBJECT:
+    for op in SHARED_OPS:
         for fix in (False, True):
             body = f"return shared_case({op!r}, [f0, f1, f2, f3, f4, f5], {{'c0': c0, 'c1': c1, 'x0': x0, 'x1': x1}}, order)"
             name = f"shared_{op}_{'fix' if fix else 'nofix'}"
@@ -174,7 +179,7 @@ def conditions(tier):
 
 
 META = {
-    "bounds": {"quick": "one test with 3 snapshots: a subject of any of the five operations (>= evaluated twice in a loop) at any of 3 positions, empty or not, between two == snapshots; all 8 values symbolic ints; one call site (with argument or empty) shared by two test items; all subsets of create/fix/trim/update/review (thorough: also report)",
+    "bounds": {"quick": "one test with 3 snapshots: a subject of any of the five operations or an == snapshot holding inner snapshot() calls (>= evaluated twice in a loop) at any of 3 positions, empty or not, between two == snapshots; all 8 values symbolic ints; one call site (with argument or empty) shared by two test items; all subsets of create/fix/trim/update/review (thorough: also report)",
                "thorough": "same"},
     "outside": "snapshots executed outside test functions (module import time), uncopyable values, arguments that change between evaluations, more than 5 snapshots per test",
     "assumptions": ["pytest turns a failing autouse-fixture teardown into an error and a non-zero exit status: validated by the real_exit_status item (real pytest process, no solver), not quantified",
